@@ -104,3 +104,13 @@ C["C14"]["level_claimed"]["text"] += " Restored generators also come from the se
 C["C18"]["level_claimed"]["text"] += " Byte-length-preserving edits (a character widened to a multi-byte one, following characters deleted to compensate)."
 C["C09"]["level_claimed"]["text"] += " Unwrapped texts (an edited snapshot body alone, with half an envelope, or spliced into the envelope)."
 C["C17"]["level_claimed"]["text"] += " Packages carrying arbitrary checksum text (quotes, backslashes, control characters, non-ASCII) and other versions must survive to_json / from_json and serde unchanged."
+# ---- texts updated after round 6 (DESIGN 11.11)
+for i in ("C01","C02","C06","C07","C10","C15"):
+    C[i]["level_claimed"]["text"] += " What every content-bearing read-only call returns (snapshot, package, snapshot JSON, text, serde JSON, level data) is decoded again and must equal the live level in price, orders and aggregates; one history in seven makes one fixed read-only call after every operation."
+C["C11"]["level_claimed"]["text"] += " One case in five is a constructed scene: dormant orders (showing nothing, unable to replenish) among replenishing and plain ones, small matches ending on fill boundaries, and a continuation that amends every dormant order back to life and trades one fill at a time."
+C["C14"]["level_claimed"]["text"] += " Scheduled programs share a generator restored at counters whose next values straddle the wrap-around (or 2^16, 2^31, 2^32, 2^63, 10^5, 10^19)."
+for i in ("C03","C08","C12","C13","C15"):
+    C[i]["level_claimed"]["text"] += " Thread programs also resubmit a cancelled order under the same id (cancel, then add by the same thread, new timestamp); the per-order linearization accepts that add after the removal."
+C["C03"]["level_claimed"]["text"] = C["C03"]["level_claimed"]["text"].replace("8 threads x 400 operations per round;", "8 threads x 400 operations per long round (two rounds in eight) and x 25 per short round, each thread ending with three add-then-list pairs; 1 600 rounds quick, 80 000 thorough;")
+C["C10"]["level_claimed"]["text"] += " Externally written texts come with their fields rotated / reversed."
+C["C19"]["level_claimed"]["text"] += " The queue is also rendered (Display / Debug) into fmt::Write and io::Write sinks that fail part-way; after every rendering the text and JSON forms taken next must decode to the queued orders."
